@@ -379,8 +379,8 @@ theorem clamp_is_noop_in_exact_arithmetic (c : Config α) (s0 s s' : St α) (h0 
 /-
 Full-strength statement of the "exactly 1" clause:
 
-    theorem temp_one_after (c) (clamp) (s0 s) (h0 : init c = .ok s0) (hon : c.on = true)
-        (k : Nat) (hk : iter c clamp s0 k = .ok s) (hover : c.nAnneal ≤ k) : s.temp = 1
+    temp_one_after : ∀ (c) (clamp) (s0 s), init c = .ok s0 → c.on = true →
+        ∀ (k : Nat), iter c clamp s0 k = .ok s → c.nAnneal ≤ k → s.temp = 1
 
 It is false of the code for `n_plateau = 1` (finding F5b: upstream keeps `T0` for ever and only
 warns), see `temp_one_after_counterexample`.  Proved under the exact guard `2 ≤ n_plateau`
@@ -436,6 +436,14 @@ theorem temp_one_after_counterexample :
   · decide +kernel
   · exact iter_none _ _ _ _
   · decide +kernel
+
+/-- Why fix F4 is needed: the snapshot code accepted `n_iter=10, n_iter_frac=0.5, n_plateau=10, T0=10`
+    and left `_annealing_period = 5 // 9 = 0`; `_update_temperature` then raises `ZeroDivisionError`
+    at iteration 1 — whereas `init` (with the repair) refuses this configuration. -/
+theorem period_zero_counterexample :
+    update (⟨true, 10, 10, 5⟩ : Config Rat) true 1 ⟨10, some (0, 1)⟩ = .error .zeroDiv ∧
+    init (⟨true, 10, 10, 5⟩ : Config Rat) = .error .algoInput := by
+  decide +kernel
 
 /-- Without annealing the temperature is constantly 1. -/
 theorem no_anneal_const_one (c : Config α) (clamp : Bool) (hoff : c.on = false) (k : Nat) :
